@@ -343,15 +343,17 @@ NetsWellFormed == HistOnly \/ UniqueWriter(meta)
 \* HistoryIndependent or NoLeftover when ReplaceMeta is replaced by the mutant
 Broken(m, g) == m # Meta(g) \/ ~LeftoverFree(m, g)
 Calls        == {"Replace", "ReplaceWithObj"}
+\* (where to look: the mutant about nested positions only shows at a hosting position)
+MutantPos(bug) == IF bug = "nested_kept" THEN NestedPos \cup {p \in AllPos : Below(p) # {}} ELSE AllPos
 MutantCaught(bug) ==
     LET g0 == [p \in AllPos |-> Input.mutant_init[p]]
         a0 == [q \in NestedPos |-> g0[q]]
-    IN  \E p1 \in AllPos : \E c1 \in FullPaletteOf(p1) : \E k1 \in Calls :
+    IN  \E p1 \in MutantPos(bug) : \E c1 \in FullPaletteOf(p1) : \E k1 \in Calls :
             LET g1 == NextCfg(g0, a0, k1, p1, c1)
                 a1 == NextArg(g0, a0, k1, p1)
                 m1 == RM(bug, Meta(g0), g0, g1, p1)
             IN  \/ Broken(m1, g1)
-                \/ \E p2 \in AllPos : \E c2 \in FullPaletteOf(p2) : \E k2 \in Calls :
+                \/ \E p2 \in MutantPos(bug) : \E c2 \in FullPaletteOf(p2) : \E k2 \in Calls :
                        LET g2 == NextCfg(g1, a1, k2, p2, c2)
                        IN  Broken(RM(bug, m1, g1, g2, p2), g2)
 MutantReport == \A b \in ToSet(Input.bugs) : PrintT(<<"V", "mutant", b, MutantCaught(b)>>)
